@@ -251,13 +251,23 @@ func TestC19_P_FixtureGenerators(t *testing.T) {
 				var kids []testutil.DirEntry
 				for i := rapid.IntRange(0, 12).Draw(t, "kids"); i > 0; i-- {
 					f := testutil.GenerateFile(rec, ls, r, 50+i)
-					f.Path = fmt.Sprintf("/kid-%d.bin", i)
+					f.Path = fmt.Sprintf("/kid-%d.bin", (i*7)%13) // (not in sorted order)
 					kids = append(kids, f)
 				}
-				de = testutil.BuildDirectory(rec, ls, kids, sharded)
+				// built from a prefix of the caller's slice; the caller then builds another directory from the whole slice: the
+				// first description must still be right afterwards (it is checked below, after both calls)
+				k := len(kids)
+				if k > 1 {
+					k = rapid.IntRange(1, len(kids)).Draw(t, "prefix")
+				}
+				de = testutil.BuildDirectory(rec, ls, kids[:k], sharded)
+				if k < len(kids) {
+					_ = testutil.BuildDirectory(rec, ls, kids, sharded)
+					opt += fmt.Sprintf(" prefix=%d/%d", k, len(kids))
+				}
 			case "WrapContent":
 				exclusive := rapid.Bool().Draw(t, "exclusive")
-				wrapPath := rapid.SampledFrom([]string{"/a", "/a/b c/d", "x/y", "/é/00/.."}).Draw(t, "wrapPath")
+				wrapPath := rapid.SampledFrom([]string{"/a", "/a/b c/d", "x/y", "/é/00/..", "/~after", "!before/x", "/a/~after/!before"}).Draw(t, "wrapPath")
 				opt = fmt.Sprintf("exclusive=%v path=%s", exclusive, wrapPath)
 				pathRule = false
 				content := testutil.GenerateFile(rec, ls, r, size%4096+1)
@@ -407,4 +417,36 @@ func TestC19_P_LargeFileBatches(t *testing.T) {
 		ev.Case(fmt.Sprintf("%d %v", seed, sizes), true, fmt.Sprintf("files:%d", len(des)))
 		ev.Sample(map[string]any{"seed": seed, "sizes": sizes})
 	})
+}
+
+
+// F18 (fixed): BuildDirectory sorted and kept the caller's slice; F19 (fixed): WrapContent's decoy siblings could take the
+// name of a wrapped path segment.
+func TestC19_R_F18_F19(t *testing.T) {
+	st := NewStore()
+	ls := st.LinkSystem()
+	rec := &recT{}
+	r := &detReader{s: 5}
+	var kids []testutil.DirEntry
+	for i := 0; i < 5; i++ {
+		f := testutil.GenerateFile(rec, ls, r, 50+i)
+		f.Path = fmt.Sprintf("/kid-%d.bin", 9-i)
+		kids = append(kids, f)
+	}
+	first := testutil.BuildDirectory(rec, ls, kids[:3], false)
+	_ = testutil.BuildDirectory(rec, ls, kids[:5], false)
+	if err := c19Check(ls, first, first.Root, first.Path, true, map[string]int{}, 0); err != nil {
+		t.Fatalf("C19 F18: directory built from kids[:3] no longer matches its description after BuildDirectory(kids[:5]): %v", err)
+	}
+	for _, wp := range []string{"/~after", "/!before", "/x/~after/y"} {
+		content := testutil.GenerateFile(rec, ls, r, 100)
+		var de testutil.DirEntry
+		failed, pp := withRealT(func(tt *testing.T) { de = testutil.WrapContent(tt, r, ls, content, wp, false) })
+		if failed || pp != nil {
+			t.Fatalf("C19 F19: WrapContent(%q) failed its own assertions (failed=%v panic=%v)", wp, failed, pp)
+		}
+		if err := c19Check(ls, de, de.Root, de.Path, false, map[string]int{}, 0); err != nil {
+			t.Fatalf("C19 F19: WrapContent(%q, exclusive=false): %v", wp, err)
+		}
+	}
 }
